@@ -191,10 +191,22 @@ def run_modes(case, r):
             r.viol("C11|mode-default|content-not-kept", "default mode is not a content-preserving read-write open", {})
         f.create_block("can-write", "t")
         f.close()
+        with h5py.File(path, "r") as h_:
+            old_id = h_.attrs.get("id")
+            old_id = old_id.decode() if isinstance(old_id, bytes) else old_id
         f = nix.File.open(path, nix.FileMode.Overwrite)
         r.evals += 1
         if len(f.blocks) or len(f.sections):
             r.viol("C11|mode-overwrite|content-kept", "Overwrite kept %d blocks" % len(f.blocks), {})
+        # fresh header: NIX format tag, the library's version, a new well-formed file id
+        import uuid as _uuid
+        try:
+            wellformed = str(_uuid.UUID(f.id)) == f.id.lower()
+        except Exception:
+            wellformed = False
+        if f.format != "nix" or tuple(f.version) != LIBVER or not wellformed or f.id == old_id:
+            r.viol("C11|mode-overwrite|header-not-fresh", "after Overwrite: format %r version %r id %r (id before: %r)" % (
+                f.format, tuple(f.version), f.id, old_id), {})
         f.close()
         env.rm(path)
     missing = env.fresh_path("c11missing_")
